@@ -1,6 +1,8 @@
 import ExponaxModel.Proofs.SymbolAlgebra
 import ExponaxModel.Proofs.WaveAlgebra
 import ExponaxModel.Proofs.DFT
+import ExponaxModel.Proofs.C2RIsometry
+import ExponaxModel.Proofs.StepperSymbols
 /-
 C11 — dissipative and dispersive linear steppers never amplify any state.
 Per-mode bounds on the regenerated propagator + sign of the documented symbols + Parseval (half layout).
@@ -108,11 +110,76 @@ theorem C11_rollout (S : Type) (nrm : S → ℝ) (step : S → S) (hstep : ∀ u
   | zero => exact le_rfl
   | succ n ih => rw [Function.iterate_succ_apply]; exact (ih (step u)).trans (hstep u)
 
-/-
-Not proved in Lean: the last assembly step `‖irfftn(ĉ)‖² ≤ N^{-D} Σ w|ĉ|²` for non-Hermitian ĉ (the c2r transform
-discards the imaginary part of the DC / Nyquist columns: an orthogonal projection).  For Hermitian ĉ (everything a
-real state produces under a real operator) it is equality by C11_parseval + C04_roundtrip.
--/
+/-! ### the whole step on EVERY real state (white noise, Nyquist content): the c2r transform is a contraction -/
+
+/-- for ANY stored half spectrum `c` (Hermitian-consistent or not) the inverse real transform does not increase the
+    Parseval-weighted energy — all D ≥ 1, N ≥ 1 -/
+theorem C11_c2r_contraction (D N : ℕ) (hD : 0 < D) (hN : 0 < N) (c : Array ℂ) :
+    ∑ j ∈ range (N ^ D), ((Transform.irfftnM D N c).getD j 0).re ^ 2 ≤
+      1 / ((N ^ D : ℕ) : ℝ) * ∑ h ∈ range (Layout.numModes D N),
+        (Transform.herm_weight D N h : ℝ) * ‖c.getD h 0‖ ^ 2 := C2R.c2r_contraction D N hD hN c
+
+/-- THE PROPERTY for one step: every real state, every `dt ≥ 0`, every symbol with `Re ≤ 0` on the stored modes, with
+    the regenerated `E0step` and `exp_term`:  `‖step u‖₂ ≤ ‖u‖₂` -/
+theorem C11_step_never_amplifies (D N : ℕ) (hD : 0 < D) (hN : 0 < N) (u : Array ℂ)
+    (hu : ∀ j < N ^ D, (u.getD j 0).im = 0) (dt : ℝ) (hdt : 0 ≤ dt) (L : ℕ → ℂ)
+    (hL : ∀ h < Layout.numModes D N, (L h).re ≤ 0) :
+    ∑ j ∈ range (N ^ D), ((Transform.irfftnM D N (Transform.tab (Layout.numModes D N) fun h =>
+        E0step (exp_term (dt : ℂ) (L h)) ((Transform.rfftnM D N u).getD h 0))).getD j 0).re ^ 2
+      ≤ ∑ j ∈ range (N ^ D), (u.getD j 0).re ^ 2 :=
+  C2R.linear_step_no_amplification_exp_term D N hD hN u hu dt hdt L hL
+
+/-- … and for every state of every rollout (with or without the initial state), any number of steps -/
+theorem C11_rollout_never_amplifies (D N : ℕ) (hD : 0 < D) (hN : 0 < N) (E : ℕ → ℂ)
+    (hE : ∀ h < Layout.numModes D N, ‖E h‖ ≤ 1) (u : Array ℂ) (hu : ∀ j < N ^ D, (u.getD j 0).im = 0) (n : ℕ)
+    (inc : Bool) (v : Array ℂ) (hv : v ∈ Loops.rollout (C2R.linStep D N E) n inc u) :
+    ∑ j ∈ range (N ^ D), (v.getD j 0).re ^ 2 ≤ ∑ j ∈ range (N ^ D), (u.getD j 0).re ^ 2 :=
+  C2R.linear_rollout_states_no_amplification D N hD hN E hE u hu n inc v hv
+
+/-- EXACT energy budget of one step (no hypothesis on `E`): damping loss + the energy the c2r projection discards on
+    the self-conjugate columns -/
+theorem C11_energy_budget (D N : ℕ) (hD : 0 < D) (hN : 0 < N) (u : Array ℂ) (hu : ∀ j < N ^ D, (u.getD j 0).im = 0)
+    (E : ℕ → ℂ) :
+    ∑ j ∈ range (N ^ D), (u.getD j 0).re ^ 2 -
+        ∑ j ∈ range (N ^ D), ((Transform.irfftnM D N (Transform.tab (Layout.numModes D N) fun h =>
+          E h * (Transform.rfftnM D N u).getD h 0)).getD j 0).re ^ 2 =
+      1 / ((N ^ D : ℕ) : ℝ) * ∑ h ∈ range (Layout.numModes D N),
+          (Transform.herm_weight D N h : ℝ) * (1 - ‖E h‖ ^ 2) * ‖(Transform.rfftnM D N u).getD h 0‖ ^ 2 +
+        1 / ((N ^ D : ℕ) : ℝ) * ∑ h ∈ range (Layout.numModes D N),
+          (2 - (Transform.herm_weight D N h : ℝ)) / 4 * ‖E h - (starRingEnd ℂ) (E (C2R.conjIdx D N h))‖ ^ 2 *
+            ‖(Transform.rfftnM D N u).getD h 0‖ ^ 2 := C2R.linear_step_energy_budget D N hD hN u hu E
+
+/-- "advection and dispersion preserve the norm exactly on odd grids and on Nyquist-free states": for `|E| = 1` the
+    norm is preserved IFF on every self-conjugate stored mode `E` is Hermitian-consistent or the state has no content -/
+theorem C11_isometry_iff (D N : ℕ) (hD : 0 < D) (hN : 0 < N) (u : Array ℂ) (hu : ∀ j < N ^ D, (u.getD j 0).im = 0)
+    (E : ℕ → ℂ) (hE : ∀ h < Layout.numModes D N, ‖E h‖ = 1) :
+    (∑ j ∈ range (N ^ D), ((Transform.irfftnM D N (Transform.tab (Layout.numModes D N) fun h =>
+        E h * (Transform.rfftnM D N u).getD h 0)).getD j 0).re ^ 2 = ∑ j ∈ range (N ^ D), (u.getD j 0).re ^ 2) ↔
+      ∀ h < Layout.numModes D N, Transform.herm_weight D N h = 1 →
+        (E h = (starRingEnd ℂ) (E (C2R.conjIdx D N h)) ∨ (Transform.rfftnM D N u).getD h 0 = 0) :=
+  C2R.linear_step_isometry_iff_herm D N hD hN u hu E hE
+
+/-- strict loss does occur otherwise: advection phase at the Nyquist mode of `N = 2` -/
+theorem C11_nyquist_loss (θ : ℝ) (hθ : Real.sin θ ≠ 0) :
+    ∑ j ∈ range 2, ((Transform.irfftnM 1 2 (Transform.tab (2 / 2 + 1) fun h =>
+        C2R.advE θ h * (Transform.rfftnM 1 2 #[1, -1]).getD h 0)).getD j 0).re ^ 2
+      < ∑ j ∈ range 2, ((#[1, -1] : Array ℂ).getD j 0).re ^ 2 := C2R.nyquist_counterexample θ hθ
+
+
+/-! ### signs of the symbols REGENERATED from each class's `_build_linear_operator` (stored modes, real coefficients) -/
+open Exponax.Gen.Steppers in
+theorem C11_generated_symbol_signs (c : Cfg ℂ) (s : ℝ) (hs : c.s = (s : ℂ)) (h : ℕ) (v ξ : List ℝ) (mix : Bool)
+    (A : List (List ℝ)) (μ : ℝ) (hv : v.length = c.D) (hξ : ξ.length = c.D) (hA : A.length = c.D)
+    (hr : ∀ r ∈ A, r.length = c.D)
+    (hpsd : ∀ x : Fin c.D → ℝ, 0 ≤ ∑ i : Fin c.D, ∑ j : Fin c.D, (A.getD i []).getD j 0 * x i * x j)
+    (hμ : 0 ≤ μ) :
+    (Advection_linear_operator (kappa c h) (ofRealL v)).re = 0 ∧
+    (Dispersion_linear_operator (kappa c h) (ofRealL ξ) mix).re = 0 ∧
+    (Diffusion_linear_operator (kappa c h) (ofRealM A)).re ≤ 0 ∧
+    (HyperDiffusion_linear_operator (kappa c h) (μ : ℂ) mix).re ≤ 0 :=
+  ⟨Advection_linear_operator_re_kappa c s hs h v hv, Dispersion_linear_operator_re_kappa c s hs h ξ mix hξ,
+   Diffusion_linear_operator_re_nonpos_kappa c s hs h A hA hr hpsd,
+   HyperDiffusion_linear_operator_re_nonpos_kappa c s hs h μ mix hμ⟩
 
 example : (0 : ℝ) ≤ 1e6 ∧ ((-3 : ℂ)).re ≤ 0 := by norm_num
 
